@@ -2756,7 +2756,8 @@ impl Formatter {
       if i == 0 {
         src = format!("{}", e);
       } else {
-        src = format!("{},{}", src, e);
+        // a bare comma after a dotted name would read as a swizzle (`(a.x,y)`)
+        src = if self.html { format!("{},{}", src, e) } else { format!("{}, {}", src, e) };
       }
     }
     if self.html {
